@@ -309,6 +309,21 @@ def position_case(case, res, spec, r):
         res.traces += 1
         if (a, b_, c) != (k, k, k):
             res.violation("position|offset_at(time_at(k)) != k", f"k={k}: absolute {a}, relative(s) {b_}, relative(us) {c}", case, {"k": k})
+        if k % 7 == 0 or k in (0, 1, L - 1, L):
+            # the same instant written on other time scales
+            tk = r.time_at(k)
+            for scale in ("tai", "tt"):
+                res.transitions += 1
+                try:
+                    got = r.offset_at(getattr(tk, scale))
+                except Exception as e:
+                    res.violation("position|time on another scale raised", f"offset_at(time_at({k}).{scale}): {type(e).__name__}: {e}", case,
+                                  {"k": k, "scale": scale})
+                    continue
+                if got != k:
+                    res.violation("position|time on another scale", f"offset_at(time_at({k}).{scale}) = {got}", case, {"k": k, "scale": scale})
+                else:
+                    res.hits["time given on another scale"] += 1
         if k % 97 == 0 or k in (0, 1, L - 1, L):
             for d, want in ((-0.4, k), (0.4, k)):
                 if 0 <= k + d <= L:
@@ -426,6 +441,28 @@ def reads_case(case, res, spec, r):
     res.transitions += 1
     if not isinstance(zc.data, da.Array) or not np.array_equal(zc.data.compute(), r.read(0, n).data):
         res.violation("read|dask chunks", "read(use_dask=True, chunks=...) differs from the eager read", case, None)
+    # every time-chunk size of a Dask read: lazily built, equal to the eager read of the same span
+    for o_, n_ in ((0, min(8, L)), (min(3, max(L - 24, 0)), min(24, L - min(3, max(L - 24, 0))))):
+        if n_ <= 0:
+            continue
+        ref = np.asarray(r.read(o_, n_).data)
+        for tc in sorted({1, 2, 3, 5, max(1, n_ // 2), max(1, n_ - 1), n_}):
+            small = int(np.prod(r.shape[1:])) <= 16
+            for rest in ((tuple(1 if small else max(1, s_ // 2) for s_ in r.shape[1:])), (-1,) * (len(r.shape) - 1)):
+                res.transitions += 1
+                try:
+                    zc = r.read(o_, n_, use_dask=True, chunks=(tc,) + rest)
+                    got = zc.data.compute()
+                except Exception as e:
+                    res.violation("read|dask chunks raised", f"read({o_}, {n_}, chunks=({tc},...)): {type(e).__name__}: {e}", case,
+                                  {"offset": o_, "n": n_, "chunk": tc})
+                    continue
+                if not isinstance(zc.data, da.Array) or got.shape != ref.shape or not np.array_equal(got, ref):
+                    res.violation("read|dask chunks", f"read({o_}, {n_}, use_dask=True, chunks=({tc},...)) differs from the eager read "
+                                  f"(max diff {float(np.max(np.abs(got - ref))) if got.shape == ref.shape else 'shape'})", case,
+                                  {"offset": o_, "n": n_, "chunk": tc})
+                elif tc < n_:
+                    res.hits["dask read split into several time chunks"] += 1
     res.sample({"reader": spec.name, "offsets": offs, "n": ns}, 1)
 
 
@@ -670,7 +707,7 @@ def main(argv=None):
     return report.run_check(
         PID, gen_cases=gen_cases, check_case=check_case, describe=describe,
         required_hits=["out-of-range time rejected", "out-of-range read rejected", "adjacent reads join", "known payload verified",
-                       "same read repeated in a history", "numpy integer offsets", "mask argument modified by the caller afterwards", "schedules explored", "schedules with a preemption",
+                       "same read repeated in a history", "numpy integer offsets", "time given on another scale", "dask read split into several time chunks", "mask argument modified by the caller afterwards", "schedules explored", "schedules with a preemption",
                        "two readers in one graph", "free-running pass"],
         assumptions=["thread interleavings are explored at Python-line granularity inside pulsarbat/readers/*.py and utils.py; code in "
                      "baseband/numpy runs atomically between two such lines; real parallelism inside C code is not modelled",
